@@ -364,3 +364,36 @@ def spGroups (emptyPos : Bool) : Nat → Str → List Tree → Option (List Tree
 def specBrackets (emptyPos : Bool) (text : Str) : Option (List Tree) := spGroups emptyPos (2 * text.length + 2) text []
 
 end TT.Spec
+
+namespace TT.Spec
+open TT TT.Tree
+
+/-- a field that the column formats can hold: non-empty and free of whitespace -/
+def fieldOK (s : Str) : Bool := !s.isEmpty && s.all (fun c => !pyIsSpace c)
+
+/-- a tree the export format can represent under the options `o`: every printed field is non-empty and free
+    of whitespace, no token is written like a constituent reference (`#ddd`), fewer than 500 constituents -/
+def ExportOK (o : OutOpts) (t : Tree) : Bool :=
+  (t.subtrees.all fun s =>
+      fieldOK (printedLabel o s) && fieldOK (s.fields.morph.getD DEFAULT_MORPH) &&
+      fieldOK (s.fields.edge.getD DEFAULT_EDGE) && fieldOK (s.fields.lemma.getD DEFAULT_LEMMA) &&
+      (!s.isLeaf || (fieldOK (s.fields.word.getD []) && (consNumber (s.fields.word.getD [])).isNone))) &&
+  (t.subtrees.filter fun s => !s.isLeaf).length < 500 &&
+  (t.subtrees.all fun s => match getLabel o (s.setFields fun f => { f with edge := some (f.edge.getD DEFAULT_EDGE) }) with
+      | .ok _ => true | .error _ => false)
+
+/-- a tree the bracket formats can represent: labels and words non-empty, without whitespace and parentheses -/
+def BracketsOK (t : Tree) : Bool :=
+  t.subtrees.all fun s =>
+    fieldOK s.fields.label && s.fields.label.all (fun c => c != '(' && c != ')') &&
+    (!s.isLeaf || (match s.fields.word with
+       | some w => fieldOK w && w.all (fun c => c != '(' && c != ')')
+       | none => false))
+
+/-- what the tool's own bracket reader delivers for a tree written by its bracket writer (no options) -/
+def asReadBrackets : Tree → Tree
+  | t => Tree.mapFields (fun s f => match s with
+      | leaf _ _ => { label := f.label, word := f.word, edge := some DEFAULT_EDGE, morph := some DEFAULT_MORPH }
+      | node _ _ => { label := f.label, edge := some DEFAULT_EDGE, morph := some DEFAULT_MORPH }) t
+
+end TT.Spec
